@@ -612,7 +612,7 @@ fn kdb_result_terms(file: &[u8], key: keepass::DatabaseKey, els: &[Vec<u8>], mod
 /// Streams of C06 over the legacy formats: files that authenticate under the key (content hash,
 /// stream start bytes, block hashes recomputed after the damage) but whose interior is malformed.
 pub fn c06_streams(agg: &mut Aggregate, args: &Args) {
-    run_cases(agg, args, "kdb-structure", args.n(2_000, 100_000), |_i, rng, model| {
+    run_cases(agg, args, "kdb-structure", args.n(2_000, 20_000), |_i, rng, model| {
         let mut o = CaseOutcome::default();
         let c = gen_kdb_content(rng, true);
         let mut creds = crate::kdbx2::gen_creds(rng);
@@ -657,7 +657,7 @@ pub fn c06_streams(agg: &mut Aggregate, args: &Args) {
         o
     });
 
-    run_cases(agg, args, "kdbx3-structure", args.n(300, 10_000), |_i, rng, model| {
+    run_cases(agg, args, "kdbx3-structure", args.n(300, 3_000), |_i, rng, model| {
         let mut o = CaseOutcome::default();
         let Some(base) = make_base(rng, true) else { o.violation = Some("save failed".into()); return o; };
         let els = base.creds.elements();
